@@ -312,10 +312,14 @@ class DemoStorage(ConflictResolvingStorage):
                 self._next_oid = random.randint(1, 1 << 62)
 
     def pack(self, t, referencesf, gc=None):
+        # Collecting garbage in the changes alone is only sound while the
+        # base is empty: otherwise changed objects may be reachable only
+        # through the base, and may refer to objects that live only there.
         if gc is None:
             if self._temporary_changes:
-                return self.changes.pack(t, referencesf)
-        elif self._temporary_changes:
+                return self.changes.pack(
+                    t, referencesf, gc=not len(self.base))
+        elif self._temporary_changes and not (gc and len(self.base)):
             return self.changes.pack(t, referencesf, gc=gc)
         elif gc:
             raise TypeError(
